@@ -711,6 +711,28 @@ pub fn replay(path: &str) -> i32 {
     rc
 }
 
+/// Not part of the check (crafted blobs are outside C08): re-encode a real blob with the
+/// SubPatternId of the first atom set to sub_patterns.len() + delta and report what
+/// Rules::deserialize says.  Nothing is scanned with the crafted rules.
+pub fn bound_check_probe() -> i32 {
+    let mut c = yara_x::Compiler::new();
+    c.add_source("rule a { strings: $a = \"abcd\" $b = \"efgh\" condition: $a or $b }").unwrap();
+    let b0 = c.build().serialize().unwrap();
+    let hdr_len = header_len(&b0);
+    let t = rules_ty();
+    let v = match real_decode(&t, &b0[hdr_len..]) { DOut::Ok(v, _) => v, o => { println!("cannot decode: {:?}", o); return 1; } };
+    let Val::Tuple(fields) = &v else { return 1 };
+    let n_sub = if let Val::Seq(x) = &fields[9] { x.len() as u64 } else { return 1 };
+    println!("sub_patterns.len() = {}", n_sub);
+    for delta in [-1i64, 0, 1] {
+        let mut f = fields.clone();
+        if let Val::Seq(atoms) = &mut f[13] { if let Some(Val::Tuple(a)) = atoms.first_mut() { a[0] = Val::UInt((n_sub as i64 + delta) as u64); } }
+        let mut blob = b0[..hdr_len].to_vec(); blob.extend(real_encode(&t, &Val::Tuple(f)));
+        println!("atom[0].sub_pattern_id = len{:+}: Rules::deserialize -> {:?}", delta, classify(&blob));
+    }
+    0
+}
+
 pub fn compile_set(s: &GSet) -> Result<yara_x::Rules, String> {
     let mut c = yara_x::Compiler::new();
     c.relaxed_re_syntax(s.relaxed);
@@ -876,6 +898,7 @@ fn main() { let args: Vec<String> = std::env::args().skip(1).collect(); std::pro
 pub fn run(args: &[String]) -> i32 {
     quiet_panics();
     if let Some(p) = arg_val(args, "--replay") { return replay(&p); }
+    if arg_flag(args, "--bound-check-probe") { return bound_check_probe(); }
     let seed = arg_u64(args, "--seed", 1);
     let n_bytes = arg_u64(args, "--n", 400) as usize;
     let n_sets = arg_u64(args, "--rulesets", 30) as usize;
